@@ -8,6 +8,10 @@ import r05_select
 import r16_frame
 import r17_determination
 import r18_indexspace
+import r19_paired
+import r20_trisym
+import r21_clones
+import r22_adjoint
 import r06_validate
 import r07_cache
 import r08_toporder
@@ -76,6 +80,23 @@ def r5(ctx, prop):
     return rs
 
 
+def r22(ctx, prop):
+    return r22_adjoint.run(ctx.F())
+
+
+def r21(ctx, prop):
+    want = {"C06": ("criticality",), "C20": ("entropy scaling",)}.get(prop)
+    return r21_clones.run(ctx.F(), want)
+
+
+def r20(ctx, prop):
+    return r20_trisym.run(ctx.F())
+
+
+def r19(ctx, prop):
+    return r19_paired.run(ctx.F())
+
+
 def r18(ctx, prop):
     return r18_indexspace.run(ctx.F())
 
@@ -106,7 +127,7 @@ def r1_all(ctx, prop):
 
 
 def r1_guard(ctx, prop):
-    return _r1(ctx, prop, ("R1b",))
+    return _r1(ctx, prop, ("R1b", "R1d"))
 
 
 def _sel_functional(fk):
@@ -192,21 +213,21 @@ def r12(ctx, prop):
 
 
 PROPERTY_RULES = {
-    "C08": [r10_wrapper, r11, r2],
-    "C09": [r12, r18, r10_wrapper],
+    "C08": [r10_wrapper, r11, r2, r20, r21],
+    "C09": [r12, r18, r20, r10_wrapper],
     "C02": [r3, r7],
-    "C10": [r10_selector, r8, r1_idealgas, r3],
+    "C10": [r10_selector, r8, r1_idealgas, r3, r19],
     "C14": [r14, r13, r10_identifier],
     "C15": [r15],
-    "C20": [r10_transport],
+    "C20": [r10_transport, r21],
     "C01": [r1_all, r2, r7, r8, r4],
     "C13": [r1_guard, r8],
-    "C17": [r1_functional, r8],
+    "C17": [r1_functional, r8, r22],
     "C11": [r9, r7],
     "C03": [r6, r17, r4, r5],
     "C04": [r4, r16],
     "C05": [r4, r5, r16],
-    "C06": [r4, r1_all],
+    "C06": [r4, r1_all, r21],
     "C07": [r5, r4],
     "C18": [r4, r16],
 }
